@@ -77,8 +77,8 @@ func C05_Cut_Commit() {
 	}
 	r := c05Recover(h)
 	lv, err := r.tree.Load()
-	if crashed && cut >= 1 {
-		// region of finding F3: a commit cut after at least one of its physical writes reached the store
+	if crashed && cut >= 1 && h.thr > 0 {
+		// region of finding F3 (needs a flush threshold that splits the commit's batch): a commit cut after at least one of its physical writes reached the store
 		// and before the last one (the flushed part holds fast-index entries, the index label and some
 		// nodes but not the root)
 		vRegion("F3:commit-interrupted-between-its-physical-writes-leaves-a-mixed-state")
@@ -193,8 +193,8 @@ func C05_Cut_Overwrite() {
 	}
 	r := c05Recover(h)
 	lv, err := r.tree.Load()
-	if crashed && cut >= 1 {
-		// region of finding F15: the rollback's deletions were split over several physical writes
+	if crashed && cut >= 1 && h.thr > 0 {
+		// region of finding F15 (needs a flush threshold that splits the deletion's batch): the rollback's deletions were split over several physical writes
 		vRegion("F15:rollback-to-version-interrupted-between-its-physical-writes-leaves-a-mixed-state")
 		vCover("f15-region")
 	}
